@@ -6,7 +6,7 @@
 
 use linfa::dataset::{AsTargets, DatasetBase};
 use linfa::traits::{Fit, PredictInplace};
-use ndarray::{Array1, Array2, ArrayBase, ArrayView1, ArrayView2, Data, Dimension, Ix1, Ix2};
+use ndarray::{Array1, Array2, ArrayBase, ArrayView2, Data, Dimension, Ix1, Ix2};
 use proptest::prelude::*;
 use serde::{Deserialize, Serialize};
 use std::cell::{Cell, RefCell};
@@ -126,7 +126,14 @@ where
     }
     let mut out = Vec::with_capacity(n);
     for r in 0..n {
-        let tag = (records[(r, 0)] / 8.0).floor() as usize;
+        // the identity tag sits in the first feature; a dataset without feature columns is identified by its targets
+        let tag = if records.ncols() > 0 {
+            (records[(r, 0)] / 8.0).floor() as usize
+        } else if tv.ndim() == 1 {
+            (tv[[r]] / 1000.0).floor() as usize
+        } else {
+            (tv[[r, 0]] / 1000.0).floor() as usize
+        };
         let mut ok = true;
         for j in 0..records.ncols() {
             ok &= records[(r, j)] == rec(tag, j);
@@ -157,6 +164,7 @@ fn classify(c: &Case, obs: &mut Obs) {
     obs.class_if(c.n % c.k != 0, "k_not_divides_n");
     obs.class_if(c.k == c.n, "k_eq_n");
     obs.class_if(c.k == 2, "k_eq_2");
+    obs.class_if(c.p == 0, "zero_features");
     obs.class_if(c.t == 0, "targets_1d");
     obs.class_if(c.t == 1, "targets_2d_1col");
     obs.class_if(c.t >= 2, "targets_2d_multi");
@@ -422,7 +430,7 @@ fn check_iter_fold(c: &Case, obs: &mut Obs) {
     // whether the call answered or ended in the documented panic, the rows must be where they were
     let _ = panicked;
     obs.ensure(restored, "iter_fold:not-restored", || {
-        format!("after iter_fold the dataset differs from its original: first feature column {:?}", records.column(0).to_vec())
+        format!("after iter_fold the dataset differs from its original: first feature column {:?}", records.rows().into_iter().map(|r| r.iter().next().copied().unwrap_or(f64::NAN)).collect::<Vec<_>>())
     });
 }
 
@@ -450,11 +458,6 @@ fn abstains(partial: bool, first_feature: f64) -> bool {
     partial && ((first_feature / 8.0).floor() as u64) % 2 == 1
 }
 
-fn train_shift(first_col: ArrayView1<f64>) -> f64 {
-    // order-independent function of the training multiset
-    let s: f64 = first_col.iter().map(|v| (v / 8.0).floor()).sum();
-    (s as u64 % 5) as f64
-}
 
 macro_rules! impl_fit {
     ($ix:ty) => {
@@ -476,7 +479,15 @@ macro_rules! impl_fit {
                     partial: self.partial,
                     a: self.a,
                     b: self.b,
-                    shift: train_shift(d.records().column(0)),
+                    shift: {
+                        let at = d.as_targets();
+                        let tv = at.view().into_dyn();
+                        let tags: f64 = (0..tv.shape()[0])
+                            .map(|r| if tv.ndim() == 1 { tv[[r]] } else { tv[[r, 0]] })
+                            .map(|t| (t / 1000.0).floor())
+                            .sum();
+                        (tags as u64 % 5) as f64
+                    },
                     t: d.as_targets().view().into_dyn().shape().get(1).copied().unwrap_or(0),
                 })
             }
@@ -489,10 +500,11 @@ impl_fit!(Ix2);
 impl<'b> PredictInplace<ArrayView2<'b, f64>, Array1<f64>> for MockModel {
     fn predict_inplace<'a>(&'a self, x: &'a ArrayView2<'b, f64>, y: &mut Array1<f64>) {
         for (r, out) in x.rows().into_iter().zip(y.iter_mut()) {
-            if abstains(self.partial, r[0]) {
+            let x0 = r.iter().next().copied().unwrap_or(0.0);
+            if r.len() > 0 && abstains(self.partial, x0) {
                 continue;
             }
-            *out = self.a * r[0] + self.b + self.shift;
+            *out = self.a * x0 + self.b + self.shift;
         }
     }
     fn default_target(&self, x: &ArrayView2<'b, f64>) -> Array1<f64> {
@@ -502,11 +514,12 @@ impl<'b> PredictInplace<ArrayView2<'b, f64>, Array1<f64>> for MockModel {
 impl<'b> PredictInplace<ArrayView2<'b, f64>, Array2<f64>> for MockModel {
     fn predict_inplace<'a>(&'a self, x: &'a ArrayView2<'b, f64>, y: &mut Array2<f64>) {
         for (r, mut out) in x.rows().into_iter().zip(y.rows_mut()) {
-            if abstains(self.partial, r[0]) {
+            let x0 = r.iter().next().copied().unwrap_or(0.0);
+            if r.len() > 0 && abstains(self.partial, x0) {
                 continue;
             }
             for (c, o) in out.iter_mut().enumerate() {
-                *o = self.a * r[0] + self.b + self.shift + c as f64;
+                *o = self.a * x0 + self.b + self.shift + c as f64;
             }
         }
     }
@@ -550,10 +563,11 @@ fn reference_scores(c: &Case) -> Result<Vec<Vec<f64>>, Vec<String>> {
                         .iter()
                         .map(|&r| {
                             let extra = if c.t == 0 { 0.0 } else { col as f64 };
-                            let pred = if abstains(m.partial, rec(r, 0)) {
+                            let x0 = if c.p > 0 { rec(r, 0) } else { 0.0 };
+                            let pred = if c.p > 0 && abstains(m.partial, x0) {
                                 0.0 // the entry keeps the value `default_target` gave it
                             } else {
-                                m.a as f64 * rec(r, 0) + m.b as f64 + shift + extra
+                                m.a as f64 * x0 + m.b as f64 + shift + extra
                             };
                             (pred - tgt(r, col)).abs()
                         })
@@ -720,7 +734,7 @@ fn check_cv(c: &Case, obs: &mut Obs) {
             records == records0 && targets == targets0
         };
         obs.ensure(restored, "cv:not-restored", || {
-            format!("after cross_validate the dataset differs from its original: first feature column {:?}", records.column(0).to_vec())
+            format!("after cross_validate the dataset differs from its original: first feature column {:?}", records.rows().into_iter().map(|r| r.iter().next().copied().unwrap_or(f64::NAN)).collect::<Vec<_>>())
         });
         // cross_validate_single must agree (same closure contract, scalar result)
         if matches!(c.eval, Eval::AbsErr) && c.models.iter().all(|m| m.fail_at.is_none()) && !c.models.is_empty() {
@@ -776,7 +790,7 @@ fn check_cv(c: &Case, obs: &mut Obs) {
             records == records0 && targets == targets0
         };
         obs.ensure(restored, "cv:not-restored", || {
-            format!("after cross_validate the dataset differs from its original: first feature column {:?}", records.column(0).to_vec())
+            format!("after cross_validate the dataset differs from its original: first feature column {:?}", records.rows().into_iter().map(|r| r.iter().next().copied().unwrap_or(f64::NAN)).collect::<Vec<_>>())
         });
     }
 }
@@ -814,7 +828,8 @@ fn case_strategy(max_n: usize, with_models: bool) -> impl Strategy<Value = Case>
         1 => any::<u16>().prop_map(Eval::FailAt),
     ];
     let layout = prop_oneof![5 => Just(0u8), 2 => Just(1u8), 1 => Just(2u8)];
-    (nk(max_n), 1usize..=4, 0usize..=3, any::<bool>(), models, eval, layout).prop_map(
+    let nfeat = prop_oneof![1 => Just(0usize), 12 => 1usize..=4];
+    (nk(max_n), nfeat, 0usize..=3, any::<bool>(), models, eval, layout).prop_map(
         |((n, k), p, t, view, models, eval, layout)| Case { n, k, p, t, view, models, eval, layout },
     )
 }
@@ -827,7 +842,7 @@ fn all_nk(max_n: usize) -> Vec<Case> {
                 v.push(Case {
                     n,
                     k,
-                    p: 1 + (n + k) % 3,
+                    p: (n + k) % 4, // 0 = a dataset without feature columns
                     t,
                     view: (n + k + t) % 2 == 0,
                     models: vec![
